@@ -5,6 +5,8 @@ property text and their own worktree; nothing from /verif except the one-line su
 changes for that property (so that they do not repeat them)."""
 import json, sys, os, subprocess, glob
 root = sys.argv[1]
+SHAPES_R3 = ' (A) the kind of slip a maintainer makes while porting a fix or feature from the sibling Java/TypeScript library or while tidying code: a wrong variable of the same type, a swapped pair of arguments, `<` for `<=`, a sign or rounding mode, a loop bound, an early return, integer vs float arithmetic - located in a secondary accessor or in one branch of a function, so that the wrong answer is PLAUSIBLE (another legal value) rather than a crash;\n (B) wrong only for a combination of two or more arguments or conditions that each occur often but rarely together (e.g. a particular week start together with a particular month shape; a gender together with a boundary instant; negative step together with a year carry);\n (C) wrong only at the extremes of the supported domain (the first/last supported year or day, the largest steps, index 0 or size-1 of a cycle, negative indices, the last entry of a table) or only for a value reached by a long chain of stepping;\n (D) process-global or per-thread state other than a plain memo: a configurable provider/static that is left changed, a lock taken in a different order or held across a call, a lazily initialised table built from the first request, behaviour that differs between the first and later calls, or between threads running at the same time;\n (E) an internal helper shared by several public routes changed so that only ONE of the routes named under "observable through" goes wrong while the most commonly used route stays right.\n'
+SHAPES_R4 = ' (F) a secondary public surface of the same values that the property still covers: equality / comparison operators, Display or name getters used as identities, `from_name`/`from_index`/`from_ymd` vs `new`, conversions between representations (`Into`, getters that rebuild a parent object, `get_solar_day` <-> `get_lunar_day` <-> `get_sixty_cycle_day` round trips), list accessors vs single-item accessors - changed so that the main accessor stays right and the secondary one disagrees with it;\n (G) two errors that cancel on the common route and only show on a less common one (e.g. an offset added in a helper and subtracted again by its main caller, but not by a second caller);\n (H) numeric representation slips: usize/isize casts of possibly negative values, f64 -> integer truncation vs floor vs round near .0/.5, integer division of negatives, `%` vs `rem_euclid`, overflow-free but wrong for large magnitudes, comparisons of floats that differ in the last bits - located so that only rare inputs (negative indices, instants within a second of a boundary, years near the ends of the range) are affected;\n (I) a one-cell edit of a data table or packed string (one entry of a leap-month list, one holiday record, one coefficient far down a series, one character of a packed table, one element of a names array used only by one accessor) that the property text nevertheless pins down (do not pick a cell whose content the statement leaves open);\n (J) a change in *when* something is computed (moved into a constructor, made lazy, hoisted out of a loop, cached in the value itself) that makes a value built one way differ from the same value built another way (constructed vs stepped vs cloned vs taken from a list).\n'
 os.makedirs(root + '/prompts', exist_ok=True)
 props = {json.loads(l)['id']: json.loads(l) for l in open('/verif/properties.jsonl')}
 for pid, p in props.items():
@@ -17,6 +19,7 @@ for pid, p in props.items():
             m = json.load(open(d)); prev.append('- ' + str(m.get('summary'))[:600])
         except Exception:
             pass
+    shapes = SHAPES_R4 if len(sys.argv) > 2 and sys.argv[2] == "r4" else SHAPES_R3
     text = f"""You are working on the Rust library 6tail/tyme4rs (a Chinese calendar library: Gregorian/lunar conversion, solar terms, sexagenary cycles, festivals, almanac tables). Your private scratch copy is the git worktree at {wt} (a checkout of the current HEAD). Work ONLY inside {wt}. Do not read or modify /repo or /verif or any other directory under {root}.
 
 Here is a semantic property that this library is supposed to satisfy:
@@ -34,17 +37,12 @@ Previous engineers already produced these changes for this property; do NOT repe
 {chr(10).join(prev)}
 
 Your changes must be different in kind from all of those. First list for yourself every clause of the STATEMENT and every entry of "observable through", mark which ones the earlier changes touched, and aim at clauses / accessors / routes that were NOT touched yet. Use a different one of these shapes for each of your two changes:
- (A) the kind of slip a maintainer makes while porting a fix or feature from the sibling Java/TypeScript library or while tidying code: a wrong variable of the same type, a swapped pair of arguments, `<` for `<=`, a sign or rounding mode, a loop bound, an early return, integer vs float arithmetic - located in a secondary accessor or in one branch of a function, so that the wrong answer is PLAUSIBLE (another legal value) rather than a crash;
- (B) wrong only for a combination of two or more arguments or conditions that each occur often but rarely together (e.g. a particular week start together with a particular month shape; a gender together with a boundary instant; negative step together with a year carry);
- (C) wrong only at the extremes of the supported domain (the first/last supported year or day, the largest steps, index 0 or size-1 of a cycle, negative indices, the last entry of a table) or only for a value reached by a long chain of stepping;
- (D) process-global or per-thread state other than a plain memo: a configurable provider/static that is left changed, a lock taken in a different order or held across a call, a lazily initialised table built from the first request, behaviour that differs between the first and later calls, or between threads running at the same time;
- (E) an internal helper shared by several public routes changed so that only ONE of the routes named under "observable through" goes wrong while the most commonly used route stays right.
-Plain constant tweaks that change the answer for a large share of ordinary inputs are NOT wanted. The property must really be violated as it is stated (do not merely change behaviour the statement leaves open, such as the choice between two equally valid answers, or behaviour outside the quantified domain). Do not edit or delete existing tests. Do not add dependencies. Everything must work offline.
+{shapes}Plain constant tweaks that change the answer for a large share of ordinary inputs are NOT wanted. The property must really be violated as it is stated (do not merely change behaviour the statement leaves open, such as the choice between two equally valid answers, or behaviour outside the quantified domain). Do not edit or delete existing tests. Do not add dependencies. Everything must work offline.
 
 For each change N in {{1, 2}} deliver, under {wt}/seed_out/N/:
   - patch.diff : the change as a unified diff of files under src/ only, produced with `git -C {wt} diff -- src > seed_out/N/patch.diff` (so it applies with `git apply` at the repository root),
   - demo.rs : a small self-contained Rust integration test file (to be placed at tests/demo.rs of the crate; use `use tyme4rs::tyme::...`) with one or more #[test] functions that FAIL with your change applied and PASS on the unchanged code,
-  - meta.json : {{"property": "{pid}", "shape": "A..E", "summary": "...what was changed...", "needs_to_manifest": "...what specific input/sequence is needed...", "commands": ["...what you ran..."], "verified": {{"tests_pass_with_change": true/false, "demo_fails_with_change": true/false, "demo_passes_without_change": true/false}}}}.
+  - meta.json : {{"property": "{pid}", "shape": "letter", "summary": "...what was changed...", "needs_to_manifest": "...what specific input/sequence is needed...", "commands": ["...what you ran..."], "verified": {{"tests_pass_with_change": true/false, "demo_fails_with_change": true/false, "demo_passes_without_change": true/false}}}}.
 
 Procedure per change: start from a clean tree (`git -C {wt} checkout -- src`), make the edit, run the full test suite (must pass), copy your demo to tests/demo.rs and run `cargo test --offline --test demo` (must fail), save the patch, then `git checkout -- src` and run the demo again (must pass), then remove tests/demo.rs. Leave the worktree clean (no modifications under src/, no tests/demo.rs) when you finish; only the seed_out/ directory should remain. Read the anchored source files first to understand the mechanism. The machine is shared with other jobs, so builds may be slow; be patient. Report briefly what the two changes are and the verification results."""
     open(f'{root}/prompts/{pid}.txt', 'w').write(text)
